@@ -264,6 +264,14 @@ Definition ref_prog (pkg : name) (r : ref) : prog :=
 (* ---- correspondence ---- *)
 From PV Require Import Common.Corr.
 
+(* names are written by the plugin as one number, little-endian base 256 (no byte of a name is 0) *)
+Fixpoint nm_fuel (fuel : nat) (x : N) : name :=
+  match fuel with
+  | O => []
+  | S k => if N.eqb x 0 then [] else N.modulo x 256 :: nm_fuel k (N.div x 256)
+  end.
+Definition nm (x : N) : name := nm_fuel 80 x.
+
 (* UC world root references observed-warnings: the paths CheckForUnusedImports reported for the
    explicitly requested file [root], in the order reported *)
 Inductive ui_case := UC (W : world) (root : N) (refs : list ref) (observed : list N).
